@@ -24,7 +24,8 @@ RULE = ('(ii) for every mutating operation of a table of ~30 operations (all sto
         'position, persistent) failpoints + distinct unencodable cases')
 DISTINCT = ('failpoints', 'unencodable_cases', 'concurrent_schedules')
 REQUIRED = ('failpoints_injected', 'ops_with_all_gates_enumerated', 'unencodable_values', 'lock_timeouts',
-            'history_calls', 'concurrent_programs', 'failures_after_file_written')
+            'history_calls', 'concurrent_programs', 'failures_after_file_written', 'expired_file_row_paths',
+            'failures_injected_into_concurrent_programs')
 ASSUMPTIONS = ('fault model: a statement other than COMMIT/ROLLBACK fails (SQLite rolls the statement back), a file '
                'operation other than unlink/rmdir fails; a failing unlink makes the property unsatisfiable for any '
                'implementation and is outside the model', 'single failure per operation')
@@ -192,6 +193,86 @@ def quiescent_problems(dc, cache, d, obs):
     except Exception as exc:       # noqa: BLE001
         problems.append('bookkeeping calls failed: %s: %s' % (type(exc).__name__, exc))
     return problems
+
+
+# ------------------------------------------- every path that meets an expired, file-backed row
+def expired_row_paths():
+    def blk_abort(fn):
+        def run(c):
+            try:
+                with c.transact():
+                    fn(c)
+                    raise fault.Injected()
+            except fault.Injected:
+                pass
+        return run
+    P = {
+        'pull front': lambda c: c.pull(), 'pull back': lambda c: c.pull(side='back'),
+        'pull prefix': lambda c: c.pull(prefix='q'), 'pull prefix back': lambda c: c.pull(prefix='q', side='back'),
+        'peek front': lambda c: c.peek(), 'peek prefix back': lambda c: c.peek(prefix='q', side='back'),
+        'peekitem last': lambda c: c.peekitem(), 'peekitem first': lambda c: c.peekitem(last=False),
+        'pop': lambda c: c.pop('k'), 'get': lambda c: c.get('k'), 'getitem': lambda c: c['k'], 'contains': lambda c: 'k' in c,
+        'read': lambda c: c.read('k'), 'add file': lambda c: c.add('k', BIGB), 'add inline': lambda c: c.add('k', 1),
+        'set file': lambda c: c.set('k', BIGB), 'set inline': lambda c: c.set('k', 1),
+        'incr': lambda c: c.incr('k'), 'decr default': lambda c: c.decr('k', default=5), 'touch': lambda c: c.touch('k', 9),
+        'delete': lambda c: c.delete('k'), 'expire': lambda c: c.expire(), 'cull': lambda c: c.cull(),
+        'evict': lambda c: c.evict('t'), 'clear': lambda c: c.clear(),
+        'push behind': lambda c: c.push(BIGS), 'push prefix front': lambda c: c.push(BIGS, prefix='q', side='front'),
+        'lazy cull by a write': lambda c: (c.reset('cull_limit', 10), c.set('other', 1)),
+    }
+    for name in ('pull front', 'pull prefix', 'pop', 'add file', 'set inline', 'incr', 'expire', 'peekitem last', 'delete'):
+        P[name + ' in an aborted block'] = blk_abort(P[name])
+    return P
+
+
+def expired_file_rows(dc, sc, res, shard, nshards):
+    """Rows whose expiry time has passed but which are still stored, with their values in files, met by every call
+    that can come across them; afterwards rows, counters and files must agree."""
+    for i, (name, fn) in enumerate(sorted(expired_row_paths().items())):
+        for variant in range(2):
+            if (2 * i + variant) % nshards != shard:
+                continue
+            d = sc.new()
+            clock = probe.set_clock(probe.VClock())
+            cache = dc.Cache(d, disk_min_file_size=T, cull_limit=0, eviction_policy=['least-recently-stored', 'none'][variant])
+            obs = observe.Observer(d)
+            try:
+                cache.set('k', BIGS, expire=1, tag='t')
+                cache.push(BIGB, expire=1, tag='t')
+                cache.push(BIGS, prefix='q', expire=1)
+                if variant:
+                    cache.push(BIGB, expire=1)
+                    cache.push(BIGS, prefix='q', expire=1, tag='t')
+                    cache.set('live', BIGS, tag='t')
+                clock.advance(5.0)
+                try:
+                    fn(cache)
+                except (KeyError, fault.Injected):
+                    pass
+                res.count('expired_file_row_paths')
+                res.count('evaluations')
+                problems = quiescent_problems(dc, cache, d, obs)
+                if problems:
+                    res.violation('%s over expired file-backed rows: %s' % (name, problems[:3]),
+                                  {'path': name, 'variant': variant})
+                    continue
+                # and once they are all gone nothing is left behind
+                cache.expire()
+                if variant:
+                    cache.delete('live')
+                cache.delete('other')
+                cache.delete('k')
+                while cache.pull()[0] is not None or cache.pull(prefix='q')[0] is not None:
+                    pass
+                files = observe.list_files(d)[0]
+                if files or len(cache):
+                    res.violation('%s over expired file-backed rows: after removing everything %d items and files %r remain' % (
+                        name, len(cache), sorted(files)[:3]), {'path': name, 'variant': variant})
+            finally:
+                obs.close()
+                cache.close()
+                probe.set_clock(None)
+                sc.drop(d)
 
 
 def later_ops_work(cache):
@@ -429,6 +510,7 @@ def run_shard(tier, seed, shard, nshards, res):
     with common.Scratch() as sc:
         failpoint_enumeration(dc, sc, res, shard, nshards, tier)
         unencodable(dc, sc, res, shard, nshards)
+        expired_file_rows(dc, sc, res, shard, nshards)
         rng = common.rng_for(seed, 'c08', shard)
         lock_timeouts(dc, sc, res, rng)
         # (i) histories with the invariant after each call + check() at the end
